@@ -11,6 +11,9 @@ import asyncio
 import copy
 import logging
 import threading
+import threading as _threading
+from concurrent.futures import Executor as _Executor
+from concurrent.futures import Future as _CFuture
 from concurrent.futures import ThreadPoolExecutor
 
 from hypothesis import strategies as st
@@ -33,6 +36,7 @@ RULE = (
     "state, default or explicit executor); non-trivial = a call with keyword arguments or defaults made from inside >=1 "
     "scope, or a method call; distinct = distinct case"
 )
+RULE += "; the explicit executor may be a concurrent.futures.Executor of the caller's own (thread per call)"
 LEVEL_TEXT = (
     "Differential: what the undecorated function receives, returns or raises is compared with the decorated call "
     "(identity for exceptions); inside the function the thread identity, a loop heartbeat and the caller's context "
@@ -56,6 +60,34 @@ DECS = [
     "traced_sync", "traced_async", "cache", "retry", "throttle", "timeout",
 ]  # fmt: skip
 ASYNC_ORIGINAL = {"wrap_async_async", "traced_async", "cache", "retry", "throttle", "timeout"}
+class _ThreadPerCall(_Executor):
+    """minimal concurrent.futures.Executor that is not a ThreadPoolExecutor: every submitted call gets its own thread"""
+
+    def __init__(self):
+        self._threads: list = []
+
+    def submit(self, fn, /, *args, **kwargs):
+        fut: _CFuture = _CFuture()
+
+        def work():
+            if not fut.set_running_or_notify_cancel():
+                return
+            try:
+                fut.set_result(fn(*args, **kwargs))
+            except BaseException as exc:  # noqa: BLE001 - handed to the future like every executor does
+                fut.set_exception(exc)
+
+        th = _threading.Thread(target=work, daemon=True)
+        self._threads.append(th)
+        th.start()
+        return fut
+
+    def shutdown(self, wait=True, *, cancel_futures=False):
+        if wait:
+            for th in self._threads:
+                th.join(5)
+
+
 THREADED = {"asynchronous_bare", "asynchronous_call", "asynchronous_executor"}
 
 
@@ -331,7 +363,12 @@ def run_case(case) -> Outcome:  # noqa: C901, PLR0912, PLR0915
         src = f"{kw} target({params}):\n    {docline}\n    return {call_body}\n"
     exec(compile(src, "<c18>", "exec", dont_inherit=True), ns)  # noqa: S102 - generated from our own signature AST
     original = ns["Holder"].__dict__["target"] if method else ns["target"]
-    executor = ThreadPoolExecutor(2) if case.get("executor") == "explicit" or dec == "asynchronous_executor" else None
+    if case.get("executor") == "custom" and dec == "asynchronous_executor":
+        # an executor of the caller's own (concurrent.futures.Executor interface, one thread per call): what the function
+        # observes must not depend on which kind of executor carries it
+        executor = _ThreadPerCall()
+    else:
+        executor = ThreadPoolExecutor(2) if case.get("executor") == "explicit" or dec == "asynchronous_executor" else None
 
     def decorate(fn):
         if dec == "asynchronous_bare":
@@ -640,6 +677,8 @@ def run_case(case) -> Outcome:  # noqa: C901, PLR0912, PLR0915
         classes.append("raises")
     if executor is not None:
         classes.append("explicit-executor")
+    if isinstance(executor, _ThreadPerCall):
+        classes.append("executor-of-the-callers-own-kind")
     if any(hasattr(v, "__next__") for v in [*args, *kwargs.values()]):
         classes.append("one-shot-iterator-argument")
     if receiver != "plain":
@@ -792,7 +831,7 @@ def strategy(tier):
             "nest": nest,
             "nodoc": draw(st.integers(0, 5)) == 0,
             "spawns": draw(st.integers(0, 2)) == 0,
-            "executor": draw(st.sampled_from(["default", "default", "explicit"])) if dec in ("asynchronous_executor",) else "default",
+            "executor": draw(st.sampled_from(["default", "explicit", "custom"])) if dec in ("asynchronous_executor",) else "default",
         }
 
     return cases()
